@@ -56,6 +56,9 @@ type Network struct {
 	Activity chan struct{}
 }
 
+// Poke wakes the driver (harness use: a scripted operation has finished).
+func (n *Network) Poke() { n.notify() }
+
 func (n *Network) notify() {
 	select {
 	case n.Activity <- struct{}{}:
